@@ -1372,8 +1372,8 @@ package trzsz
 //@   # after the start of the trigger on, and one hit is enough to start nothing
 //@   ghostvar sawFinished bool = false
 //@   after bytes.Contains set sawFinished = sawFinished || r0
-//@   before bytes.Contains assert [C06] len(subOutput) > 40 && same(p0, subOutput[40:])
-//@   ensures [C06] sawFinished ==> r1 == nil
+//@   before bytes.Contains assert [C05,C06] len(subOutput) > 40 && same(p0, subOutput[40:])
+//@   ensures [C05,C06] sawFinished ==> r1 == nil
 //@   ensures [C05,C06] r1 == nil && !(detector.relay && detector.tmux) ==> same(r0, output)
 //@   ensures [C06] len(output) < 24 ==> r1 == nil
 //@   ensures [C06] result_of("bytes.LastIndex", 0, 0) < 0 ==> r1 == nil
